@@ -4,6 +4,8 @@ import Rivaas.Spec.Bind
 import Rivaas.Model.BindObs
 import Rivaas.Model.BindBody
 import Rivaas.Spec.BindBody
+import Rivaas.Model.BindAll
+import Rivaas.Spec.BindAll
 import Rivaas.Lemmas.BindPath
 /-
 Driver for C04. Case line:
@@ -78,16 +80,19 @@ def pTag : P Tag := do
   | 0 => pure .query | 1 => pure .path | 2 => pure .form | 3 => pure .header | 4 => pure .cookie
   | _ => failure
 
-/-- <maxDepth> <maxSlice> <maxMap> <csv> <baseAuto> <nconv> { <leaf type key> <converter> }* -/
-def pCfg : P Cfg := do
+/-- <maxDepth> <maxSlice> <maxMap> <csv> <baseAuto> <nconv> { <leaf type key> <converter> }* <allErrors>
+    (with allErrors the observation is `O <Val>` — no error —, `A <n> { E <n> <name>* <class> | F … }*` or `X`) -/
+def pCfg : P (Cfg × Bool) := do
   let md ← nat; let ms ← nat; let mm ← nat; let csv ← bool; let ba ← bool
   let convs ← list (do let k ← nat; let c ← nat; pure (k, c))
-  pure { maxDepth := md, maxSlice := ms, maxMap := mm, csv := csv, baseAuto := ba, convs := convs }
+  let all ← bool      -- WithAllErrors
+  pure ({ maxDepth := md, maxSlice := ms, maxMap := mm, csv := csv, baseAuto := ba, convs := convs }, all)
 
 structure Case where
   entry : String
   tag : Tag
   cfg : Cfg
+  all : Bool
   ty : Ty
   init : Val
   src : Src
@@ -105,7 +110,7 @@ def pCase : P Case := do
   let srcs ← if e == "B" || e == "A" then list (do let t ← pTag; let kvs ← pKvs; pure ({ kind := t, kvs := kvs } : Src))
              else (do let kvs ← pKvs; pure [({ kind := tag, kvs := kvs } : Src)])
   let tbl ← list pEntry
-  pure { entry := e, tag := tag, cfg := cfg,
+  pure { entry := e, tag := tag, cfg := cfg.1, all := cfg.2,
          ty := ty, init := init, src := srcs.headD { kind := tag, kvs := [] }, srcs := srcs, tbl := tbl }
 
 def pErrClass : P Err := do
@@ -200,6 +205,7 @@ def pOp : P Op := do
 
 structure JCase where
   cfg : Cfg
+  all : Bool
   ty : Ty
   init : Val
   steps : List Step
@@ -211,7 +217,7 @@ def pJCase : P JCase := do
   let init ← pVal
   let steps ← list pStep
   let tbl ← list pEntry
-  pure { cfg := cfg, ty := ty, init := init, steps := steps, tbl := tbl }
+  pure { cfg := cfg.1, all := cfg.2, ty := ty, init := init, steps := steps, tbl := tbl }
 
 structure HCase where
   ty : Ty
@@ -278,6 +284,62 @@ def encBObs : Spec.BObs → String
   | .err e => encBErr e
   | .panic => "X"
 
+def pBErrItem : P BErr := do
+  let k ← tok
+  match k with
+  | "E" => do
+    let names ← list str
+    let c ← pErrClass
+    pure (.bind (Spec.wrapErr names c))
+  | "F" => do
+    let c ← tok
+    match c with
+    | "R" => pure .read | "D" => pure .decode | "N" => pure .nobody | "T" => pure .ctype
+    | "U" => do let n ← str; pure (.unknown n)
+    | _ => failure
+  | _ => failure
+
+def pObsAllB : P Spec.ObsAllB := do
+  let k ← tok
+  match k with
+  | "O" => do let v ← pVal; pure (.done v [])
+  | "A" => do let es ← list pBErrItem; pure (.done .nil es)
+  | "X" => pure .panic
+  | _ => failure
+
+def bindErrs? : List BErr → Option (List Err)
+  | [] => some []
+  | .bind e :: r => (bindErrs? r).map (e :: ·)
+  | _ :: _ => none
+
+def pObsAll : P Spec.ObsAll := do
+  let o ← pObsAllB
+  match o with
+  | .panic => pure .panic
+  | .done v es => match bindErrs? es with
+    | some es' => pure (.done v es')
+    | none => failure
+
+def encAllB (v : Val) (es : List BErr) : String :=
+  if es.isEmpty then "O " ++ encVal v
+  else s!"A {es.length}" ++ String.join (es.map fun e => " " ++ encBErr e)
+
+def encOutAll : OutAll → String
+  | .panic => "X"
+  | .done v es => encAllB v (es.map .bind)
+
+def encObsAll : Spec.ObsAll → String
+  | .panic => "X"
+  | .done v es => encAllB v (es.map .bind)
+
+def encOutAllB : OutAllB → String
+  | .panic => "X"
+  | .done v es => encAllB v es
+
+def encObsAllB : Spec.ObsAllB → String
+  | .panic => "X"
+  | .done v es => encAllB v es
+
 def stepsOK (steps : List Step) : Bool :=
   steps.all fun s => match s with
     | .src s => Spec.srcOK s
@@ -288,9 +350,23 @@ def tblOK (tbl : List (Bytes × PEntry)) : Bool :=
     | some (_, _, above, inf32) => !inf32 || above
     | none => true)
 
-def stepJ (id : String) (inp obs : List String) : String :=
-  match runP pJCase inp, runP pBObs obs with
-  | some c, some o =>
+def stepJAll (id : String) (c : JCase) (obs : List String) : String :=
+  match runP pObsAllB obs with
+  | some o =>
+    match c.ty, c.init with
+    | .struct fs, .struct ivs =>
+      if !(wts fs ivs && Spec.inGrammarFs fs && stepsOK c.steps && tblOK c.tbl && (Spec.bodiesOf c.steps).length ≤ 1) then
+        s!"{id} bad-case preconditions"
+      else
+        let P := lookupP c.tbl
+        let m := bindStepsAll P c.cfg fs c.init c.steps
+        verdict id (encOutAllB m == encObsAllB o) (Spec.specStepsAll P c.cfg fs c.init c.steps o) "-" (encOutAllB m)
+    | _, _ => s!"{id} bad-case type"
+  | none => s!"{id} bad-case"
+
+def stepJPlain (id : String) (c : JCase) (obs : List String) : String :=
+  match runP pBObs obs with
+  | some o =>
     match c.ty, c.init with
     | .struct fs, .struct ivs =>
       if !(wts fs ivs && Spec.inGrammarFs fs && stepsOK c.steps && tblOK c.tbl && (Spec.bodiesOf c.steps).length ≤ 1) then
@@ -300,7 +376,12 @@ def stepJ (id : String) (inp obs : List String) : String :=
         let m := bindSteps P c.cfg fs c.init c.steps
         verdict id (encBOut m == encBObs o) (Spec.specSteps P c.cfg fs c.init c.steps o) "-" (encBOut m)
     | _, _ => s!"{id} bad-case type"
-  | _, _ => s!"{id} bad-case"
+  | none => s!"{id} bad-case"
+
+def stepJ (id : String) (inp obs : List String) : String :=
+  match runP pJCase inp with
+  | some c => if c.all then stepJAll id c obs else stepJPlain id c obs
+  | none => s!"{id} bad-case"
 
 def lastStrict : List Op → Bool
   | [] => false
@@ -324,27 +405,49 @@ def stepH (id : String) (inp obs : List String) : String :=
     | _, _ => s!"{id} bad-case type"
   | _, _ => s!"{id} bad-case"
 
+/-- WithAllErrors: the collecting bind against the collecting oracle -/
+def stepAll (id : String) (c : Case) (obs : List String) : String :=
+  match runP pObsAll obs with
+  | none => s!"{id} bad-case"
+  | some o =>
+    if !preconditions c then s!"{id} bad-case preconditions" else
+    let P := lookupP c.tbl
+    match c.ty with
+    | .struct fs =>
+      if c.entry == "B" || c.entry == "A" then
+        let m := bindMultiAll P c.cfg fs c.init c.srcs
+        verdict id (encOutAll m == encObsAll o) (Spec.specMultiAll P c.cfg fs c.init c.srcs o) "-" (encOutAll m)
+      else
+        let m := bindAll P c.cfg c.tag c.ty c.init c.src
+        verdict id (encOutAll m == encObsAll o) (Spec.specAll P c.cfg c.tag fs c.init c.src o) "-" (encOutAll m)
+    | _ => s!"{id} bad-case type"
+
+def stepPlain (id : String) (c : Case) (obs : List String) : String :=
+  match runP pObs obs with
+  | none => s!"{id} bad-case"
+  | some o =>
+    if !preconditions c then s!"{id} bad-case preconditions" else
+    let P := lookupP c.tbl
+    match c.ty with
+    | .struct fs =>
+      if c.entry == "B" || c.entry == "A" then
+        -- several sources: bindMultiSource against the folded oracle
+        let m := toObs (bindMulti P c.cfg fs c.init c.srcs)
+        verdict id (encObs m == encObs o) (Spec.specMulti P c.cfg fs c.init c.srcs o) "-" (encObs m)
+      else
+        let m := toObs (bind P c.cfg c.tag c.ty c.init c.src)
+        verdict id (encObs m == encObs o) (Spec.specOK P c.cfg c.tag fs c.init c.src o) "-" (encObs m)
+    | _ => s!"{id} bad-case type"
+
 def step (line : String) : String :=
   match splitCase line with
   | none => "? bad-line"
   | some (id, "J" :: inp, obs) => stepJ id inp obs
   | some (id, "H" :: inp, obs) => stepH id inp obs
   | some (id, inp, obs) =>
-    match runP pCase inp, runP pObs obs with
-    | some c, some o =>
-      if !preconditions c then s!"{id} bad-case preconditions" else
-      let P := lookupP c.tbl
-      match c.ty with
-      | .struct fs =>
-        if c.entry == "B" || c.entry == "A" then
-          -- several sources: bindMultiSource against the folded oracle
-          let m := toObs (bindMulti P c.cfg fs c.init c.srcs)
-          verdict id (encObs m == encObs o) (Spec.specMulti P c.cfg fs c.init c.srcs o) "-" (encObs m)
-        else
-          let m := toObs (bind P c.cfg c.tag c.ty c.init c.src)
-          verdict id (encObs m == encObs o) (Spec.specOK P c.cfg c.tag fs c.init c.src o) "-" (encObs m)
-      | _ => s!"{id} bad-case type"
-    | _, _ => s!"{id} bad-case"
+    match runP pCase inp with
+    | some c => if c.all then stepAll id c obs else stepPlain id c obs
+    | none => s!"{id} bad-case"
 
 end Rivaas.DriverC04
 
